@@ -3,6 +3,7 @@ package c05
 import (
 	"fmt"
 	"math"
+	"strconv"
 	"strings"
 	"testing"
 
@@ -29,6 +30,9 @@ type exprCase struct {
 	Op2 string   `json:"op2,omitempty"`
 	D   *Operand `json:"d,omitempty"`
 
+	// optional: Number/String/Boolean.prototype.valueOf/toString scripted for the duration of the case
+	P *Protos `json:"protos,omitempty"`
+
 	pre *obs // observation computed in a batch (not part of the case)
 }
 
@@ -36,7 +40,7 @@ type exprCase struct {
 // logs), short-circuit for && || ?:, then the operator's conversions.
 func modelExpr(c exprCase) (m05.Value, *m05.Throw, *m05.Ctx) {
 	ctx := &m05.Ctx{}
-	env := &modelEnv{}
+	env := &modelEnv{protos: c.P}
 	v, t := modelFirst(c, ctx, env)
 	if t != nil || c.Op2 == "" {
 		return v, t, ctx
@@ -78,6 +82,7 @@ func modelFirst(c exprCase, ctx *m05.Ctx, env *modelEnv) (m05.Value, *m05.Throw)
 
 func (c exprCase) script(idx int) script {
 	var s script
+	s.r.pre, s.post = c.P.install(idx)
 	ea := s.r.expr(c.A, "A", idx, c.Ev)
 	eb := s.r.expr(c.B, "B", idx, c.Ev)
 	if c.Op == "?:" {
@@ -136,6 +141,21 @@ func describeOperand(o Operand) string {
 }
 
 func (c exprCase) String() string {
+	if c.P != nil {
+		d := c
+		d.P = nil
+		var parts []string
+		for _, x := range []struct {
+			n string
+			s *ObjSpec
+		}{{"Number", c.P.Number}, {"String", c.P.String}, {"Boolean", c.P.Boolean}} {
+			if x.s != nil {
+				parts = append(parts, describeOperand(Operand{K: "obj", O: x.s})[1:])
+				parts[len(parts)-1] = x.n + ".prototype{" + parts[len(parts)-1]
+			}
+		}
+		return "with " + strings.Join(parts, " ") + ": " + d.String()
+	}
 	if c.Op == "?:" {
 		return fmt.Sprintf("%s ? %s : %s", describeOperand(c.A), describeOperand(c.B), describeOperand(*c.C))
 	}
@@ -298,6 +318,70 @@ func TestPrimitiveProduct(t *testing.T) {
 	}
 }
 
+// ---- facet: pairs of integers beyond 2^53 that otto holds as Go integers -------------------------------
+
+// wideInts: integers in (2^53, 2^63) (and two negative ones, Set channels only) chosen so that
+// neighbours round to the same double, to adjacent doubles (ties included) or are doubles themselves.
+var wideInts = []string{
+	"9007199254740992", "9007199254740993", "9007199254740994", "9007199254740995", "9007199254740996", "9007199254740997",
+	"18014398509481984", "18014398509481985", "18014398509481986", "18014398509481987", "18014398509481988", "18014398509481990",
+	"1152921504606846976", "1152921504606846977", "1152921504606847103", "1152921504606847104", "1152921504606847105", "1152921504606847232",
+	"9223372036854774784", "9223372036854775295", "9223372036854775296", "9223372036854775807", "9223372036854775806",
+	"123456789012345678", "123456789012345680", "-9007199254740993", "-9007199254740992", "-9223372036854775807", "-9223372036854775808",
+}
+
+func wideOperand(lit, via string) Operand {
+	x, err := strconv.ParseFloat(lit, 64) // correctly rounded: the double the integer denotes (7.8.3 / nearest for Go integers)
+	must(err)
+	o := numOp(x, via)
+	o.Lit = lit
+	return o
+}
+
+var wideFacet = harness.Register(&harness.Facet[exprCase]{
+	Name: "wide-integer-pairs",
+	Rule: "complete table: every ordered pair of 29 integers in ±(2^53, 2^63] — neighbours that round to the same double, to adjacent doubles (ties to even), or that are doubles — each handed to otto as an integer literal (the lexer keeps an int64) or through Otto.Set as int64 (negatives: Set only) × the 8 comparison/equality operators and - % & | ^ >>> (no string conversion involved); oracle: the ES5 model applied to the doubles the integers denote (7.8.3, 8.5), so `9007199254740993 === 9007199254740992` is true and `>` false; every case non-trivial; distinct by (operator, a, b, channels)",
+	Check: func(c exprCase) harness.Outcome {
+		o := checkExpr(c)
+		o.Nontrivial = true
+		if parseLit(c.A.N) == parseLit(c.B.N) && c.A.Lit != c.B.Lit {
+			o.Classes = append(o.Classes, "same-double-different-integers")
+		}
+		return o
+	},
+})
+
+func TestWideIntegerPairs(t *testing.T) {
+	var ops []Operand
+	for _, l := range wideInts {
+		if l[0] != '-' {
+			ops = append(ops, wideOperand(l, "dec"))
+		}
+		ops = append(ops, wideOperand(l, "i64"))
+	}
+	var cases []exprCase
+	for _, a := range ops {
+		for _, b := range ops {
+			for _, op := range []string{"==", "!=", "===", "!==", "<", ">", "<=", ">=", "-", "%", "&", "|", "^", ">>>"} {
+				cases = append(cases, exprCase{Op: op, A: a, B: b})
+			}
+		}
+	}
+	harness.SetExhaustive(wideFacet.Name)
+	for lo := 0; lo < len(cases); lo += 200 {
+		hi := min(lo+200, len(cases))
+		ss := make([]script, 0, hi-lo)
+		for i := lo; i < hi; i++ {
+			ss = append(ss, cases[i].script(i-lo))
+		}
+		got := runScripts(ss)
+		for i := lo; i < hi; i++ {
+			cases[i].pre = &got[i-lo]
+		}
+	}
+	wideFacet.Each(t, cases)
+}
+
 // ---- facet: generated pairs of primitives through every injection channel ---------------------------
 
 var chainOps = []string{"+", "-", "*", "/", "%", "<<", ">>", ">>>", "&", "|", "^", "==", "!=", "===", "!==", "<", ">", "<=", ">="}
@@ -306,11 +390,15 @@ var allBinary = append(append([]string{}, m05.BinaryOps...), "&&", "||")
 
 var binGen = harness.Register(&harness.Facet[exprCase]{
 	Name:     "binary-generated",
-	Rule:     "rapid: operator uniform over the 23 binary operators (a quarter of the cases apply a second operator to the result, `(a op b) op2 d`, so that the Go number kinds otto's operators produce feed the next conversion); each operand a primitive: double (boundary pool, random bit patterns, integer corners around 2^7…2^64), numeric/near-miss/other string (pools or random over four alphabets), boolean, null, undefined; injected as literal (exponent form, plain decimal text, hex), or through Otto.Set as float64/float32/string/bool and every Go integer width that holds the value exactly; one script per case; non-trivial = an operand is not a small integer literal or plain ASCII word; distinct by (operator, a, b, channels)",
+	Rule:     "rapid: operator uniform over the 23 binary operators (a quarter of the cases apply a second operator to the result, `(a op b) op2 d`, so that the Go number kinds otto's operators produce feed the next conversion); one case in twelve takes both operands from ten consecutive integers around a double in (2^53, 2^63), as integer literals or Set(int64/int/uint64/uint), compared as the doubles they denote; each operand a primitive: double (boundary pool, random bit patterns, integer corners around 2^7…2^64), numeric/near-miss/other string (pools or random over four alphabets), boolean, null, undefined; injected as literal (exponent form, plain decimal text, hex), or through Otto.Set as float64/float32/string/bool and every Go integer width that holds the value exactly; one script per case; non-trivial = an operand is not a small integer literal or plain ASCII word; distinct by (operator, a, b, channels)",
 	Quick:    40000,
 	Thorough: 250000,
 	Gen: func(t *rapid.T) exprCase {
 		c := exprCase{Op: rapid.SampledFrom(allBinary).Draw(t, "op"), A: genPrimitive(t), B: genPrimitive(t)}
+		if rapid.IntRange(0, 11).Draw(t, "widepair") == 11 { // two Go-integer-held numbers beyond 2^53, same or adjacent doubles
+			base := genWideBase(t)
+			c.A, c.B = genWideInt(t, base), genWideInt(t, base)
+		}
 		if c.Op != "in" && c.Op != "instanceof" && rapid.IntRange(0, 3).Draw(t, "chain") == 3 {
 			c.Op2 = rapid.SampledFrom(chainOps).Draw(t, "op2")
 			d := genPrimitive(t)
@@ -341,9 +429,75 @@ func genObjOrPrim(t *rapid.T, label string) Operand {
 	return genObject(t)
 }
 
+// genProtos scripts the prototype methods of one or two wrapper classes and makes sure a wrapper of a
+// scripted class is an operand (conversions of primitives must not notice the scripted prototypes).
+func genProtos(t *rapid.T, c *exprCase) {
+	modes := []string{m05.MPrim, m05.MPrim, m05.MObj, m05.MThrow, m05.MUndef, m05.MNonCall, "deleted", "stock"}
+	spec := func() *ObjSpec {
+		sp := &ObjSpec{}
+		sp.V.Mode = rapid.SampledFrom(modes).Draw(t, "protoValueOf")
+		if sp.V.Mode == m05.MPrim {
+			sp.V.Ret = genRet(t)
+		}
+		sp.T.Mode = rapid.SampledFrom(modes).Draw(t, "protoToString")
+		if sp.T.Mode == m05.MPrim {
+			sp.T.Ret = genRet(t)
+		}
+		return sp
+	}
+	wrapOf := func(kind string) Operand {
+		var in Operand
+		switch kind {
+		case "num":
+			in = numOp(rapid.SampledFrom([]float64{5, 0, -1, 2.5, 4294967296}).Draw(t, "wrapnum"), "")
+		case "str":
+			in = strOpA(rapid.SampledFrom([]string{"3", "", "a", "10", " 7 "}).Draw(t, "wrapstr"))
+		default:
+			in = Operand{K: "bool", B: rapid.Bool().Draw(t, "wrapbool")}
+		}
+		return Operand{K: "wrap", Inner: &in}
+	}
+	c.P = &Protos{}
+	kinds := []string{"num", "str", "bool"}
+	k1 := rapid.SampledFrom(kinds).Draw(t, "protoclass")
+	set := func(k string) {
+		switch k {
+		case "num":
+			c.P.Number = spec()
+		case "str":
+			c.P.String = spec()
+		default:
+			c.P.Boolean = spec()
+		}
+	}
+	set(k1)
+	k2 := k1
+	if rapid.Bool().Draw(t, "secondclass") {
+		k2 = rapid.SampledFrom(kinds).Draw(t, "protoclass2")
+		if k2 != k1 {
+			set(k2)
+		}
+	}
+	switch rapid.IntRange(0, 2).Draw(t, "wrapside") {
+	case 0:
+		c.A = wrapOf(k1)
+		if c.B.K == "alias" {
+			c.B = wrapOf(k2)
+		}
+	case 1:
+		if c.B.K == "scn" || c.B.K == "alias" {
+			c.A = wrapOf(k1)
+		} else {
+			c.B = wrapOf(k1)
+		}
+	default:
+		c.A, c.B = wrapOf(k1), wrapOf(k2)
+	}
+}
+
 var objFacet = harness.Register(&harness.Facet[exprCase]{
 	Name:     "operators-on-objects",
-	Rule:     "rapid: operator over the 23 binary operators and ?:; at least one operand is an O object (plain or Date) whose valueOf/toString each return a primitive, return an object, throw, are undefined, are non-callable or are inherited, and log their call; the other operand is an O object, the same object, a primitive (any channel) or, for in/instanceof, a function/object of the scenery; half of the cases log operand evaluation, a quarter read an operand through a logging accessor; oracle: result by type and bits plus the complete log (operand evaluation, GetValue, valueOf/toString in 8.12.8 order, nothing after a throw, untaken operands never evaluated); every case non-trivial; distinct by the whole case",
+	Rule:     "rapid: operator over the 23 binary operators and ?:; at least one operand is an O object (plain or Date) whose valueOf/toString each return a primitive, return an object, throw, are undefined, are non-callable or are inherited, and log their call; the other operand is an O object, the same object, a primitive (any channel) or, for in/instanceof, a function/object of the scenery; half of the cases log operand evaluation, a quarter read an operand through a logging accessor; one case in six scripts Number/String/Boolean.prototype.valueOf/toString (primitive, object, throw, undefined, non-callable, deleted, stock) for the duration of the case and uses wrapper objects of those classes as operands, so that [[DefaultValue]] must find and call the inherited method; oracle: result by type and bits plus the complete log (operand evaluation, GetValue, valueOf/toString in 8.12.8 order, nothing after a throw, untaken operands never evaluated); every case non-trivial; distinct by the whole case",
 	Quick:    40000,
 	Thorough: 250000,
 	Gen: func(t *rapid.T) exprCase {
@@ -370,11 +524,21 @@ var objFacet = harness.Register(&harness.Facet[exprCase]{
 			cc := genObjOrPrim(t, "ckind")
 			c.C = &cc
 		}
+		if rapid.IntRange(0, 5).Draw(t, "protos") == 5 {
+			genProtos(t, &c)
+		}
 		return c
 	},
 	Check: func(c exprCase) harness.Outcome {
 		o := checkExpr(c)
 		o.Nontrivial = true
+		if c.P != nil {
+			for _, sp := range []*ObjSpec{c.P.Number, c.P.String, c.P.Boolean} {
+				if sp != nil {
+					o.Classes = append(o.Classes, "scripted-prototype", "proto-valueOf:"+sp.V.Mode, "proto-toString:"+sp.T.Mode)
+				}
+			}
+		}
 		for _, x := range []Operand{c.A, c.B} {
 			if x.K == "obj" {
 				o.Classes = append(o.Classes, "valueOf:"+x.O.V.Mode, "toString:"+x.O.T.Mode)
